@@ -243,7 +243,7 @@ def _run_pool(ctx, specs, renderings, label, nontrivial, chunk=250):
     if batch:
         jobs.append(batch)
     with mp.Pool(min(12, os.cpu_count() or 1)) as pool:
-        for res in pool.imap_unordered(_worker, jobs):
+        for res in pool.imap(_worker, jobs):
             for spec, fmt, h, v, r, bad in res:
                 _report(ctx, spec, fmt, h, v, r, bad)
 
